@@ -39,6 +39,20 @@ def _empty_list(v):
         (isinstance(v, ast.Call) and isinstance(v.func, ast.Name) and v.func.id == 'list' and not v.args and not v.keywords)
 
 
+def _empty_dict(v):
+    return (isinstance(v, ast.Dict) and not v.keys) or \
+        (isinstance(v, ast.Call) and isinstance(v.func, ast.Name) and v.func.id == 'dict' and not v.args and not v.keywords)
+
+
+def _item_of(st, x):
+    """(key, value) of `x[key] = value`"""
+    if isinstance(st, ast.Assign) and len(st.targets) == 1 and isinstance(st.targets[0], ast.Subscript) and \
+            isinstance(st.targets[0].value, ast.Name) and st.targets[0].value.id == x and \
+            not isinstance(st.targets[0].slice, (ast.Slice, ast.Tuple)):
+        return st.targets[0].slice, st.value
+    return None
+
+
 def _append_of(st, x):
     if isinstance(st, ast.Expr) and isinstance(st.value, ast.Call) and isinstance(st.value.func, ast.Attribute) and \
             st.value.func.attr == 'append' and isinstance(st.value.func.value, ast.Name) and \
@@ -90,8 +104,9 @@ def _invisible_outside(func, inside, names):
 def _try_loop(func, init, loop):
     """the comprehension statement replacing (init, loop), or None"""
     if not (isinstance(init, ast.Assign) and len(init.targets) == 1 and isinstance(init.targets[0], ast.Name)
-            and _empty_list(init.value)):
+            and (_empty_list(init.value) or _empty_dict(init.value))):
         return None
+    as_dict = _empty_dict(init.value)
     x = init.targets[0].id
     if not isinstance(loop, ast.For) or loop.orelse or not loop.body:
         return None
@@ -113,7 +128,29 @@ def _try_loop(func, init, loop):
     if isinstance(last, ast.If) and not last.orelse and len(last.body) == 1:
         cond = last.test
         last = last.body[0]
-    elt = _append_of(last, x)
+    key = None
+    if as_dict:
+        kv = _item_of(last, x)
+        if kv is None:
+            return None
+        key, elt = kv
+        if any(n.id == x for n in _names(key)):
+            return None
+        # only a dictionary that is complete after the loop: one that is filled further (x[k] = v, x.update(...))
+        # stays a dictionary under construction, which is how the rules read it
+        inside_ = {id(n) for n in ast.walk(loop)} | {id(n) for n in ast.walk(init)}
+        for n in ast.walk(func):
+            if id(n) in inside_:
+                continue
+            if isinstance(n, ast.Subscript) and isinstance(n.value, ast.Name) and n.value.id == x and \
+                    isinstance(n.ctx, (ast.Store, ast.Del)):
+                return None
+            if isinstance(n, ast.Attribute) and isinstance(n.value, ast.Name) and n.value.id == x:
+                return None
+            if isinstance(n, ast.Name) and n.id == x and isinstance(n.ctx, (ast.Store, ast.Del)):
+                return None
+    else:
+        elt = _append_of(last, x)
     if elt is None:
         return None
     if any(n.id == x for n in _names(elt)) or (cond is not None and any(n.id == x for n in _names(cond))):
@@ -132,8 +169,12 @@ def _try_loop(func, init, loop):
     sub = _Subst(env)
     elt = sub.visit(copy.deepcopy(elt))
     ifs = [sub.visit(copy.deepcopy(cond))] if cond is not None else []
-    comp = ast.ListComp(elt=elt, generators=[ast.comprehension(target=copy.deepcopy(loop.target),
-                                                                iter=copy.deepcopy(loop.iter), ifs=ifs, is_async=0)])
+    gens = [ast.comprehension(target=copy.deepcopy(loop.target), iter=copy.deepcopy(loop.iter), ifs=ifs, is_async=0)]
+    if as_dict:
+        # d = {}; for t in X: d[k] = v   is   d = {k: v for t in X}   (a repeated key keeps its last value either way)
+        comp = ast.DictComp(key=sub.visit(copy.deepcopy(key)), value=elt, generators=gens)
+    else:
+        comp = ast.ListComp(elt=elt, generators=gens)
     new = ast.Assign(targets=[ast.Name(id=x, ctx=ast.Store())], value=comp, type_comment=None)
     ast.copy_location(new, loop)
     for n in ast.walk(new):
@@ -160,6 +201,9 @@ def _rewrite_body(func, body):
             if isinstance(last, ast.Expr) and isinstance(last.value, ast.Call) and \
                     isinstance(last.value.func, ast.Attribute) and isinstance(last.value.func.value, ast.Name):
                 x = last.value.func.value.id
+            elif isinstance(last, ast.Assign) and len(last.targets) == 1 and isinstance(last.targets[0], ast.Subscript) and \
+                    isinstance(last.targets[0].value, ast.Name):
+                x = last.targets[0].value.id
             while x is not None and j >= 0:
                 if any(n.id == x for n in _names(body[j])):
                     cand = j
@@ -366,9 +410,111 @@ class _Structure(ast.NodeTransformer):
         return node
 
 
+def _module_names(tree):
+    """Names bound to modules by the file's own top-level imports (`import math`, `import numpy as np`)."""
+    out = set()
+    for st in tree.body:
+        if isinstance(st, ast.Import):
+            for a in st.names:
+                out.add(a.asname or a.name.split('.')[0])
+    return out
+
+
+def _function_aliases(tree):
+    """`log10 = math.log10` once in a function, `log10(x)` afterwards: a module function looked up once and called
+    under a local name.  The local name stands for the dotted name (module attributes are not rebound while the
+    function runs), so its uses are written back as `math.log10` and the binding is dropped."""
+    mods = _module_names(tree)
+    methods = {m.name for c in ast.walk(tree) if isinstance(c, ast.ClassDef) for m in c.body
+               if isinstance(m, (ast.FunctionDef, ast.AsyncFunctionDef)) and
+               not any(isinstance(d, ast.Name) and d.id == 'property' for d in m.decorator_list)}
+    props = {m.name for c in ast.walk(tree) if isinstance(c, ast.ClassDef) for m in c.body
+             if isinstance(m, (ast.FunctionDef, ast.AsyncFunctionDef)) and m.name not in methods}
+    assigned_attrs = {t.attr for x in ast.walk(tree) if isinstance(x, (ast.Assign, ast.AugAssign, ast.AnnAssign))
+                      for tt in (x.targets if isinstance(x, ast.Assign) else [x.target]) for t in ast.walk(tt)
+                      if isinstance(t, ast.Attribute)}
+    n = 0
+    for func in ast.walk(tree):
+        if not isinstance(func, (ast.FunctionDef, ast.AsyncFunctionDef)):
+            continue
+        binds = {}
+        home = {}
+        blocks = [getattr(x, fld) for x in ast.walk(func) for fld in ('body', 'orelse', 'finalbody')
+                  if isinstance(getattr(x, fld, None), list) and getattr(x, fld) and isinstance(getattr(x, fld)[0], ast.stmt)
+                  and not (isinstance(x, (ast.FunctionDef, ast.AsyncFunctionDef, ast.ClassDef)) and x is not func)]
+        for blk in blocks:
+          for st in blk:
+            home[id(st)] = blk
+            if isinstance(st, ast.Assign) and len(st.targets) == 1 and isinstance(st.targets[0], ast.Name) and \
+                    isinstance(st.value, ast.Attribute):
+                v = st.value
+                while isinstance(v, ast.Attribute):
+                    v = v.value
+                if isinstance(v, ast.Name) and v.id in mods:
+                    binds.setdefault(st.targets[0].id, []).append(st)
+                elif isinstance(v, ast.Name) and v.id == 'self' and isinstance(st.value.value, ast.Name) and \
+                        st.value.attr not in assigned_attrs and st.value.attr not in props:
+                    # `mass = self.get_molecular_mass` ... `mass(g)`: a method of the object (defined in this file,
+                    # never assigned as an attribute) looked up once; only when every use is a call
+                    nm_ = st.targets[0].id
+                    uses_ = [x for x in ast.walk(func) if isinstance(x, ast.Name) and x.id == nm_ and isinstance(x.ctx, ast.Load)]
+                    callee_ = {id(x.func) for x in ast.walk(func) if isinstance(x, ast.Call)}
+                    if uses_ and all(id(x) in callee_ for x in uses_):
+                        binds.setdefault(nm_, []).append(st)
+        if not binds:
+            continue
+        stored = {}
+        params = {a.arg for a in func.args.args + func.args.kwonlyargs + func.args.posonlyargs}
+        for x in ast.walk(func):
+            if isinstance(x, ast.Name) and isinstance(x.ctx, (ast.Store, ast.Del)):
+                stored[x.id] = stored.get(x.id, 0) + 1
+            if isinstance(x, (ast.Global, ast.Nonlocal)):
+                for nm in x.names:
+                    stored[nm] = 99
+            if isinstance(x, (ast.FunctionDef, ast.AsyncFunctionDef, ast.Lambda)) and x is not func:
+                for a in x.args.args + x.args.kwonlyargs + x.args.posonlyargs:
+                    stored[a.arg] = 99        # a nested scope re-using the name: leave alone
+        for name, sts in binds.items():
+            if len(sts) != 1 or stored.get(name, 0) != 1 or name in params:
+                continue
+            st = sts[0]
+            root = st.value
+            while isinstance(root, ast.Attribute):
+                root = root.value
+            if stored.get(root.id, 0):
+                continue
+            # every use comes after the binding: the binding is a top-level statement and uses before it would be
+            # an UnboundLocalError in the original
+            blk = home[id(st)]
+            idx = blk.index(st)
+            later = {id(x) for b in blk[idx + 1:] for x in ast.walk(b)}
+            early = any(isinstance(x, ast.Name) and x.id == name and isinstance(x.ctx, ast.Load) and id(x) not in later
+                        for x in ast.walk(func))
+            if early:
+                continue                # a use that the binding does not dominate
+            value = st.value
+
+            class _Use(ast.NodeTransformer):
+                def visit_Name(self, node):
+                    if node.id == name and isinstance(node.ctx, ast.Load):
+                        import copy
+                        return ast.copy_location(copy.deepcopy(value), node)
+                    return node
+            blk.remove(st)
+            for i, b in enumerate(blk):
+                blk[i] = _Use().visit(b)
+            if not blk:
+                blk.append(ast.Pass())
+            n += 1
+    if n:
+        ast.fix_missing_locations(tree)
+    return n
+
+
 def normalise(tree):
+    fa = _function_aliases(tree)
     sp = _Spellings()
     sp.visit(tree)
     stc = _Structure()
     stc.visit(tree)
-    return loops_to_comps(tree) + sp.n + stc.n
+    return loops_to_comps(tree) + sp.n + stc.n + fa
